@@ -26,7 +26,7 @@ var c18CfgKinds = []string{"allow-all", "discrete", "discrete-credentialed", "st
 
 var c18Shapes = []string{"actual-get-allowed", "actual-get-disallowed", "actual-options", "non-cors-get", "preflight-ok", "preflight-bad-origin", "preflight-acrpn", "preflight-bad-method", "preflight-bad-headers"}
 
-var c18Fields = []string{"origin-length", "origin-labels", "origin-values", "acrm-length", "acrh-line-length", "acrh-junk-length", "acrh-elements", "acrh-empty-elements", "acrh-lines", "acrh-ows"}
+var c18Fields = []string{"origin-length", "origin-labels", "origin-punycode-labels", "origin-values", "acrm-length", "acrh-line-length", "acrh-junk-length", "acrh-elements", "acrh-empty-elements", "acrh-lines", "acrh-ows"}
 
 type C18Case struct {
 	CfgKind string `json:"config_kind"`
@@ -73,6 +73,8 @@ func c18Scales(field string) []int {
 		return c18Counts
 	case "origin-labels":
 		return []int{1, 10, 100, 100_000} // 100 labels still fit the 253-byte host limit; 100 000 do not
+	case "origin-punycode-labels":
+		return []int{1, 4, 16, 100_000} // 16 xn-- labels still fit the host limit
 	}
 	return c18Sizes
 }
@@ -121,6 +123,15 @@ func c18Request(shape, field, fl string, n int) *http.Request {
 		// n one-byte labels in front of the wildcard pattern's base (allowed while the host fits 253 bytes)
 		if _, ok := h[hOrigin]; ok {
 			h[hOrigin] = []string{"https://" + flavour(strings.Repeat("a.", n), fl) + "example.com"}
+		}
+	case "origin-punycode-labels":
+		// n Punycode (xn--) labels, valid or not, in front of the wildcard pattern's base: IDNA processing is per label
+		if _, ok := h[hOrigin]; ok {
+			unit := "xn--bcher-kva."
+			if fl == "mixed" || fl == "upper" {
+				unit = "xn--a."
+			}
+			h[hOrigin] = []string{"https://" + strings.Repeat(unit, n) + "example.com"}
 		}
 	case "origin-values":
 		if _, ok := h[hOrigin]; ok {
@@ -214,7 +225,7 @@ func c18Check(c C18Case, rec *Recorder) *Disc {
 func TestC18(t *testing.T) {
 	Prop[C18Case]{ID: "C18", Gen: c18Gen, Check: c18Check,
 		Rule: "generator: configuration kind in {allow-all, discrete, discrete+credentialed+PNA, * headers anonymous with/without Authorization, * headers credentialed, no headers configured, no-cors-only PNA} x debug x request shape in {actual allowed/disallowed, actual OPTIONS, non-CORS, preflight succeeding / failing at origin, ACRPN, method, headers} " +
-			"x scaled field in {Origin length, Origin label count, Origin value count, ACRM length, ACRH line length (valid names), ACRH junk length, ACRH element count, ACRH empty-element count, ACRH line count, OWS run} x content flavour in {lower case, Mixed-Case, UPPER CASE, OWS-padded} x 4 scales (1 B..1 MiB or 1..100 000 elements). " +
+			"x scaled field in {Origin length, Origin label count, Origin Punycode-label count, Origin value count, ACRM length, ACRH line length (valid names), ACRH junk length, ACRH element count, ACRH empty-element count, ACRH line count, OWS run} x content flavour in {lower case, Mixed-Case, UPPER CASE, OWS-padded} x 4 scales (1 B..1 MiB or 1..100 000 elements). " +
 			"Oracle: testing.AllocsPerRun (10 runs, GOMAXPROCS 1, reused request, reused and cleared header map, no-op handler, race detector off) <= 8 at every scale and not larger at the largest scale than at the smallest. " +
 			"evaluations = measured cells; non-trivial = cell with scale >= 10 KiB / 10 000 elements; distinct by (config kind, debug, shape, field, flavour, scale).",
 		Assumptions: []string{"only the allocation COUNT is judged, as the property says; a change that allocates O(n) bytes in O(1) allocations is not flagged",
